@@ -51,6 +51,14 @@ fn replay_once<'p>(p: &'p Program, hist: &[HEv], cfg: &MachineCfg, partial: bool
                 }
                 invoked[t] = Some(ev.pc as usize);
             }
+            HK::Spin if m.is_wait_until(t) => {
+                // a check of the predicate that failed: the wait that preceded it (if any) is over
+                advance_wait(&mut m, t, ch)?;
+                let done = step_checked(&mut m, t, ev.res, ch)?;
+                if done {
+                    return Err(format!("T{} pc{}: the predicate loop went on although it read the awaited value", t, ev.pc));
+                }
+            }
             HK::Spin => {
                 if m.is_block_on(t) {
                     // a poll that returned Pending after reading the logged value
@@ -67,6 +75,16 @@ fn replay_once<'p>(p: &'p Program, hist: &[HEv], cfg: &MachineCfg, partial: bool
             HK::Ret => {
                 if m.pc(t) != ev.pc as usize {
                     return Err(format!("T{} returned from op {} but the reference is at {}", t, ev.pc, m.pc(t)));
+                }
+                if m.is_wait_until(t) {
+                    advance_wait(&mut m, t, ch)?;
+                    let want = m.wait_until_value(t);
+                    let done = step_checked(&mut m, t, want, ch)?;
+                    if !done {
+                        return Err(format!("T{} pc{}: the predicate loop ended although its last check cannot have read the awaited value", t, ev.pc));
+                    }
+                    invoked[t] = None;
+                    continue;
                 }
                 if m.is_block_on2(t) {
                     // every load of a two-flag future is logged; the last poll must have seen both
@@ -109,6 +127,13 @@ fn replay_once<'p>(p: &'p Program, hist: &[HEv], cfg: &MachineCfg, partial: bool
     }
     // end of history: fire remaining hidden phases (the thread is inside the op)
     for u in 0..nt {
+        if invoked[u].is_some() && m.is_wait_until(u) {
+            // after a failed check the thread has enqueued itself and waits
+            if m.wait_until_must_enqueue(u) {
+                step_checked(&mut m, u, None, ch)?;
+            }
+            continue;
+        }
         if invoked[u].is_some() && hidden_phase_pending(&m, u) && !m.is_block_on(u) {
             step_checked(&mut m, u, None, ch)?;
         }
@@ -144,6 +169,22 @@ fn replay_once<'p>(p: &'p Program, hist: &[HEv], cfg: &MachineCfg, partial: bool
         }
     }
     Ok(Accept { race, race_large, deadlocked: !any_enabled && !all_done, poisoned: m.any_lock_poisoned(), all_done, leak: if all_done { m.leak() } else { None }, leaks: if all_done { m.leaks() } else { vec![] }, results: m.results.clone() })
+}
+
+/// fire the hidden sub-steps of a predicate-loop wait (enqueue, wake-up) until its next check
+fn advance_wait(m: &mut Machine<'_>, t: usize, ch: &mut dyn Choose) -> Result<(), String> {
+    let mut guard = 0;
+    while !m.wait_until_at_check(t) {
+        if !m.enabled(t) {
+            return Err(format!("T{}: the wait inside the predicate loop returned although nothing can have woken it here", t));
+        }
+        step_checked(m, t, None, ch)?;
+        guard += 1;
+        if guard > 4 {
+            return Err("wait phases do not converge".into());
+        }
+    }
+    Ok(())
 }
 
 /// fire the hidden sub-steps of a block_on (registration, wake-up) until its next poll
